@@ -2,9 +2,9 @@ package sym
 
 import (
 	"fmt"
-	"os"
 	"go/token"
 	"go/types"
+	"os"
 	"sync"
 
 	"golang.org/x/tools/go/ssa"
